@@ -63,7 +63,7 @@ def unparse(n):
 
 
 class Program:
-    def __init__(self, root):
+    def __init__(self, root, trees=None):
         self.root = pathlib.Path(root)
         self.mods, self.classes, self.dup_classes = {}, {}, set()
         pkg = self.root / 'supvisors'
@@ -78,7 +78,7 @@ class Program:
                 name = name[:-9]
             src = p.read_text()
             try:
-                tree = ast.parse(src)
+                tree = trees[name] if trees is not None and name in trees else ast.parse(src)
             except SyntaxError as exc:
                 raise AnalysisError('cannot parse %s: %s' % (rel, exc))
             m = Mod(name, p, tree, src)
